@@ -236,7 +236,7 @@ def area_registry(rng, z, n_cases):
         reg = ServiceRegistry()
         infos = [ServiceInfo(ty, name, port=80, server=server, addresses=[bytes([10, 0, 0, 1])]) for ty, name, server in pool]
         out = []
-        for k, i, js, key in ops:
+        for oi, (k, i, js, key) in enumerate(ops):
             try:
                 if k == "add":
                     reg.async_add(infos[i])
@@ -253,8 +253,12 @@ def area_registry(rng, z, n_cases):
                                                      ",".join(x.name for x in reg.async_get_service_infos())))
             except Exception as ex:  # noqa: BLE001
                 out.append("!" + exc_name(ex))
+                ops = ops[:oi + 1]
+                break
         out.append("S:%s T:%s V:%s E:%s" % ("|".join("%s=%s" % (k, v.name) for k, v in reg._services.items()), show_idx(reg.types), show_idx(reg.servers),
                                             "T" if reg.has_entries else "F"))
+        if out and out[-1].startswith("S:") and len(out) > 1 and out[-2].startswith("!"):
+            out.pop()  # no final dump after an exception
         exp.append(" ".join(out))
         name = "regCase%d" % ci
         L = ["def %s : String := Id.run do" % name, "  let is : List Svc := [%s]" % ", ".join(svc_lean(d) for d in pool),
@@ -275,6 +279,7 @@ def area_registry(rng, z, n_cases):
                       "  | .ok a, .ok b => out := out ++ [\"q:\" ++ \",\".intercalate r.async_get_types ++ \":\" ++ showNames a ++ \":\" ++ showNames b ++ \":\" ++ "
                       "(match r.async_get_info_name %s with | none => \"None\" | some x => x.name) ++ \":\" ++ showNames r.async_get_service_infos]" % lstr(key),
                       "  | .error e, _ => out := out ++ [\"!\" ++ e.name]", "  | _, .error e => out := out ++ [\"!\" ++ e.name]"]
+        L.append("  if out.any (fun x => x.startsWith \"!\") then return \" \".intercalate out")
         L.append("  out := out ++ [\"S:\" ++ \"|\".intercalate (r.services.map (fun p => p.1 ++ \"=\" ++ p.2.name)) ++ \" T:\" ++ showIdx r.types ++ \" V:\" ++ showIdx r.servers ++ \" E:\" ++ showB r.has_entries]")
         L.append("  return \" \".intercalate out")
         defs.append("\n".join(L))
@@ -282,7 +287,94 @@ def area_registry(rng, z, n_cases):
     return "\n\n".join(defs), exprs, exp
 
 
-AREAS = {"History": area_history, "Registry": area_registry}
+def area_cache(rng, z, n_cases):
+    sys.path.insert(0, str(ROOT))
+    from harness.common import rec_line
+
+    import zeroconf._cache as cmod
+
+    def show(l):
+        return "[" + ";".join(rec_line(r) for r in l) + "]"
+
+    C = "GenFn.Cache.DNSCache"
+    defs, exprs, exp = [], [], []
+    for ci in range(n_cases):
+        rs = [rnd_rec(rng) for _ in range(6)]
+        ops = []
+        held = set()
+        ptrs = [d for d in rs if d[0] == "p"]
+        for _ in range(rng.randint(2, 12)):
+            k = rng.choice(["add", "add", "add", "rm", "exp", "q", "q"])
+            idx = rng.sample(range(6), rng.randint(1, 3))
+            if k == "add":
+                held.update(idx)
+            if k == "rm" and held and rng.random() < 0.8:
+                # mostly records that were added (an equal one may have replaced them; an expired one may be gone)
+                idx = [rng.choice(sorted(held))]
+                held.discard(idx[0])
+            name, alias = rng.choice(NAMES), rng.choice(["a._http._tcp.local.", "A._http._tcp.local.", "b._http._tcp.local."])
+            if ptrs and rng.random() < 0.5:
+                d = rng.choice(ptrs)
+                name, alias = rng.choice([d[1], d[1].upper()]), d[5]
+            ops.append((k, idx, rng.choice([1, 600, 1000, 1999, 2000, 2001, 3000, 121000, 4501000]), name, rng.choice([1, 12, 16, 28, 33, 47]), alias))
+        cache = cmod.DNSCache()
+        pr = [rec_py(d, z) for d in rs]
+        out = []
+        L = ["def cacheCase%d : String := Id.run do" % ci, "  let rs : List Rec := [%s]" % ", ".join(rec_lean(d) for d in rs),
+             "  let mut out : List String := []", "  let mut c := %s.init" % C]
+        for k, idx, now, name, ty, alias in ops:
+            failed = False
+            try:
+                if k == "add":
+                    out.append("a" + ("T" if cache.async_add_records([pr[i] for i in idx]) else "F"))
+                    L += ["  match %s.async_add_records L c [%s] with" % (C, ", ".join("rs[%d]!" % i for i in idx)),
+                          "  | .ok p => do c := p.2; out := out ++ [\"a\" ++ showB p.1]", "  | .error e => return \" \".intercalate (out ++ [\"!\" ++ e.name])"]
+                elif k == "rm":
+                    L += ["  match %s.async_remove_records L c [%s] with" % (C, ", ".join("rs[%d]!" % i for i in idx)),
+                          "  | .ok p => c := p", "  | .error e => return \" \".intercalate (out ++ [\"!\" ++ e.name])"]
+                    cache.async_remove_records([pr[i] for i in idx])
+                elif k == "exp":
+                    L += ["  match %s.async_expire L c %d with" % (C, now),
+                          "  | .ok p => do c := p.2; out := out ++ [\"e\" ++ showRecs p.1]", "  | .error e => return \" \".intercalate (out ++ [\"!\" ++ e.name])"]
+                    out.append("e" + show(cache.async_expire(float(now))))
+                else:
+                    e = pr[idx[0]]
+                    cmod.current_time_millis = lambda now=now: float(now)
+                    L += ["  out := out ++ [\"q\" ++ showOptRec (c.async_get_unique L rs[%d]!) ++ \"/\" ++ showRecs (c.async_all_by_details L %s %d 1) ++ \"/\" ++ "
+                          "showRecs ((c.async_entries_with_name L %s).map Prod.fst) ++ showRecs ((c.async_entries_with_name L %s).map Prod.snd) ++ \"/\" ++ "
+                          "showRecs ((c.async_entries_with_server L %s).map Prod.fst) ++ \"/\" ++ showOptRec (c.get L rs[%d]!) ++ \"/\" ++ showOptRec (c.get_by_details L %s %d 1) ++ \"/\" ++ "
+                          "showRecs (c.get_all_by_details L %s %d 1) ++ \"/\" ++ showRecs (c.entries_with_server L %s) ++ \"/\" ++ showRecs (c.entries_with_name L %s) ++ \"/\" ++ "
+                          "showStrs c.names ++ \"/\" ++ (match c.current_entry_with_name_and_alias L %s %s %d with | .ok o => showOptRec o | .error e => \"!\" ++ e.name)]"
+                          % (idx[0], lstr(name), ty, lstr(name), lstr(name), lstr(name), idx[0], lstr(name), ty, lstr(name), ty, lstr(name), lstr(name), lstr(name), lstr(alias), now)]
+                    try:
+                        cur = cache.current_entry_with_name_and_alias(name, alias)
+                        cur = "None" if cur is None else rec_line(cur)
+                    except Exception as ex:  # noqa: BLE001
+                        cur = "!" + exc_name(ex)
+                    en = cache.async_entries_with_name(name)
+                    o = lambda x: "None" if x is None else rec_line(x)  # noqa: E731
+                    out.append("q" + "/".join([o(cache.async_get_unique(e)), show(cache.async_all_by_details(name, ty, 1)), show(list(en)) + show(list(en.values())),
+                                               show(list(cache.async_entries_with_server(name))), o(cache.get(e)), o(cache.get_by_details(name, ty, 1)),
+                                               show(cache.get_all_by_details(name, ty, 1)), show(cache.entries_with_server(name)), show(cache.entries_with_name(name)),
+                                               "[" + ",".join(cache.names()) + "]", cur]))
+            except Exception as ex:  # noqa: BLE001
+                out.append("!" + exc_name(ex))
+                failed = True
+            if failed:
+                break
+        if not (out and out[-1].startswith("!")):
+            dump = lambda d: "|".join("%s=%s" % (k, show(list(v))) for k, v in d.items())  # noqa: E731
+            out.append("C:" + dump(cache.cache) + " S:" + dump(cache.service_cache))
+            L.append("  let dump := fun (d : PyDict String (PyDict Rec Rec)) => \"|\".intercalate (d.map (fun p => p.1 ++ \"=\" ++ showRecs (p.2.map Prod.fst)))")
+            L.append("  out := out ++ [\"C:\" ++ dump c.cache ++ \" S:\" ++ dump c.service_cache]")
+        L.append("  return \" \".intercalate out")
+        exp.append(" ".join(out))
+        defs.append("\n".join(L))
+        exprs.append("cacheCase%d" % ci)
+    return "\n\n".join(defs), exprs, exp
+
+
+AREAS = {"History": area_history, "Registry": area_registry, "Cache": area_cache}
 
 
 def emit(repo):
